@@ -343,7 +343,6 @@ func c05Oracle(r *R, w *World, spawnErrs []string) {
 	r.CountN("restarts-observed", restarts)
 }
 
-
 // specProvider: whether the probe at path was spawned with a provider (recorded at spawn time).
 func (w *World) specProvider(path string) bool {
 	w.mu.Lock()
